@@ -90,6 +90,9 @@ func fieldKind(S []any, home string, f J) string {
 			first := resolveJ(S, t, 1)
 			if jstr(first["k"]) == "ref" {
 				base += "-via-alias"
+				if jstr(first["pkg"]) != jstr(t["pkg"]) {
+					base += "-crossing-packages"
+				}
 			}
 			if !jbool(f["required"]) {
 				flags = append(flags, "optional")
@@ -134,6 +137,13 @@ func objectKind(S []any, pkg, name string) string {
 			chain := ""
 			if jstr(first["k"]) == "ref" && jstr(r["k"]) != "ref" {
 				chain = "-chain"
+				// does a later hop of the chain leave the package the chain started in?
+				for hop, fuel := first, 8; jstr(hop["k"]) == "ref" && fuel > 0; hop, fuel = resolveJ(S, hop, 1), fuel-1 {
+					if jstr(hop["pkg"]) != jstr(t["pkg"]) {
+						chain = "-chain-crossing-packages"
+						break
+					}
+				}
 			}
 			switch {
 			case jstr(r["k"]) == "ref":
@@ -414,9 +424,6 @@ func c16Replay(args []string) int {
 				}
 			}
 			for _, m := range c.Modes {
-				if jstr(jmap(m)["name"]) != "Main" {
-					continue
-				}
 				st := resolveJ(c.S, J{"k": "ref", "pkg": jstr(jmap(m)["pkg"]), "name": jstr(jmap(m)["name"])}, 8)
 				byName := map[string]J{}
 				for _, f := range jlist(st["fields"]) {
